@@ -154,7 +154,12 @@ func telemetryCounterName(crash []byte) (string, error) {
 	name := counter.EncodeStack(pcs, prefix)
 	// A program counter inside inlined calls is rendered as one frame per
 	// call: limit the number of frames in the name as well.
-	if lines := strings.SplitN(name, "\n", maxFrames+2); len(lines) > maxFrames+1 {
+	// (EncodeStack may have cut the name to the size limit and marked it:
+	// only the last line of what precedes the marker can be incomplete, so
+	// the first 16 frames of a longer name are whole and need no marker; a
+	// name of at most 16 frames is kept as it is, marker included.)
+	body, _ := strings.CutSuffix(name, "\ntruncated\n")
+	if lines := strings.Split(body, "\n"); len(lines) > maxFrames+1 {
 		name = strings.Join(lines[:maxFrames+1], "\n")
 	}
 	return name, nil
